@@ -7,6 +7,7 @@
 package main
 
 import (
+	"runtime"
 	"flag"
 	"fmt"
 	"os"
@@ -55,6 +56,12 @@ func runMain(args []string) {
 		os.Exit(2)
 	}
 	tLoad := time.Since(t0)
+	if os.Getenv("SYMGO_DEBUG") != "" {
+		var ms runtime.MemStats
+		runtime.GC()
+		runtime.ReadMemStats(&ms)
+		fmt.Printf("heap after load+GC: %d MB\n", ms.HeapAlloc>>20)
+	}
 	hp, fn := l.harness(*harness)
 	if fn == nil {
 		fmt.Println("no such harness", *harness)
